@@ -29,6 +29,7 @@ def verdict(root):
         lexrules.check_lexer(rep, facts)
         skips = lexrules.check_reader(rep, facts)
         lexrules.check_handover(rep, facts, skips)
+        lexrules.check_operand_spelling(rep, facts)
         lexrules.check_register_numbers(rep, facts)
     except AnalysisError as e:
         return 2, ['ANALYSIS-ERROR ' + str(e)]
